@@ -76,7 +76,9 @@ class C16(Check):
         "batches of generated values (scalars, strings, nested list/tuple/dict/set/frozenset, "
         "dataclass, NamedTuple) are rebuilt from a spec in 3 fresh interpreter processes, each with "
         "its own PYTHONHASHSEED and its own insertion order for set / dict elements, and hashed "
-        "with TypeRegistry.get_hash; all nodes must agree on every value; a case is one value; "
+        "with TypeRegistry.get_hash, with the hash the backend records the value under, and with "
+        "hash_args_eval of calls taking the value by position, in variadic positions and by "
+        "keyword; all nodes must agree on every value; a case is one value; "
         "non-trivial = the value contains a set or frozenset with >= 2 elements or a dict whose "
         "insertion order was permuted"
     )
@@ -131,9 +133,14 @@ class C16(Check):
                 ftypes = sorted({t for t in ("set", "frozenset") if has(spec, (t,))})
                 sig = where + ":" + "+".join(ftypes)
                 if len({r[i].split("|")[0] for r in results}) == 1:
-                    # the nodes agree on the hash used as cache key but not on the hash the
-                    # value is recorded under
-                    sig += "/recorded-hash-only"
+                    if len({r[i].split("|")[1] for r in results}) == 1:
+                        # the nodes agree on the value's own hashes but not on the hashes of
+                        # calls that take it as an argument (by position, variadic, by keyword)
+                        sig += "/argument-hash-only"
+                    else:
+                        # the nodes agree on the hash used as cache key but not on the hash the
+                        # value is recorded under
+                        sig += "/recorded-hash-only"
                 if sig not in {v.signature for v in out.violations}:
                     out.violate("C16.nodes_agree", sig,
                                 {"value_spec": spec, "hashseeds": seeds,
